@@ -22,8 +22,15 @@ func init() {
 // routeImpls lists the named types of package gldap implementing the route interface.
 func (c *Ctx) routeImpls() map[string]*ssa.Function {
 	out := map[string]*ssa.Function{}
+	var iface *types.Interface
+	if nt := c.P.NamedType(G, "route"); nt != nil {
+		iface, _ = nt.Underlying().(*types.Interface)
+	}
 	for _, f := range c.shippedFuncs(G) {
 		if f.Name() == "match" && f.Signature.Recv() != nil {
+			if iface != nil && !types.Implements(f.Signature.Recv().Type(), iface) {
+				continue // a method that happens to be called match on something that is not a route
+			}
 			if nt := an.StructOf(f.Signature.Recv().Type()); nt != nil {
 				out[nt.Obj().Name()] = f
 			}
@@ -66,30 +73,12 @@ func checkC03(c *Ctx) {
 		}
 		return false
 	}
-	// the route loop
-	var loopIf *ssa.If
-	var routesLoad ssa.Value
-	an.Instrs(serve, func(in ssa.Instruction) {
-		if iff, ok := in.(*ssa.If); ok && an.IsRangeHeader(iff) {
-			loopIf = iff
-		}
-	})
-	if loopIf == nil {
-		R.Fail("C03-order", "(*Mux).serve: forward range over m.routes", c.P.Pos(serve.Pos()), "no range loop over the routes")
+	// the route loop: in serve itself, or in a helper of the mux that serve
+	// calls with its own (m, req) and that returns the first matching route
+	sel := c.routeSelection(serve)
+	if sel == nil {
 		return
 	}
-	head := loopIf.Block()
-	// bound = len(load m.routes)
-	if bo, ok := loopIf.Cond.(*ssa.BinOp); ok {
-		if lc, ok := bo.Y.(*ssa.Call); ok {
-			if b, ok := lc.Common().Value.(*ssa.Builtin); ok && b.Name() == "len" {
-				routesLoad = lc.Common().Args[0]
-			}
-		}
-	}
-	base, okRoutes := fieldLoad(routesLoad, G, "Mux", "routes")
-	R.Check(routesLoad != nil && okRoutes && an.Strip(base) == ssa.Value(serve.Params[0]), "C03-order", "(*Mux).serve: forward range over m.routes", c.pos(loopIf),
-		"for i := 0..len(m.routes)-1 in increasing order (go/ssa range-index induction phi(-1, i+1))", "the route loop does not range forward over the whole of m.routes")
 	cnt := an.CountEvents(serve, an.Entry(serve), isEvent, nil)
 	isReqNil := func(v ssa.Value) bool {
 		x, _, ok := an.NilCheck(v)
@@ -121,14 +110,16 @@ func checkC03(c *Ctx) {
 		}
 	}
 	for _, h := range hcalls {
-		if w := an.Search(an.After(h), func(in ssa.Instruction) bool { return in.Block() == head }, nil); w != nil {
-			R.Fail("C03-once", "(*Mux).serve: no fall-through after a handler", c.pos(h), "after a handler ran the route loop continues: a later route can handle the request again")
+		if sel.head != nil && sel.fn == serve {
+			if w := an.Search(an.After(h), func(in ssa.Instruction) bool { return in.Block() == sel.head }, nil); w != nil {
+				R.Fail("C03-once", "(*Mux).serve: no fall-through after a handler", c.pos(h), "after a handler ran the route loop continues: a later route can handle the request again")
+			}
 		}
 		if !isCall(h) {
 			R.Fail("C03-once", "(*Mux).serve: handler called synchronously", c.pos(h), "handler is deferred / started on a goroutine inside serve")
 		}
 	}
-	// classify the handler calls: in-loop (first match) and default
+	// classify the handler calls: first match and default
 	var inLoop, deflt []ssa.CallInstruction
 	for _, h := range hcalls {
 		hv, ok := an.Strip(h.Common().Value).(*ssa.Call)
@@ -141,64 +132,37 @@ func checkC03(c *Ctx) {
 			deflt = append(deflt, h)
 			continue
 		}
-		// range element of m.routes
-		if ld, ok := recv.(*ssa.UnOp); ok {
-			if ia, ok := ld.X.(*ssa.IndexAddr); ok && an.IsRangeIdx(ia.Index) && an.Strip(ia.X) == an.Strip(routesLoad) {
-				inLoop = append(inLoop, h)
-				// control dependent on match(req) == true of the same element
-				okMatch := hasFact(h.Block(), true, func(v ssa.Value) bool {
-					call, ok := v.(*ssa.Call)
-					return ok && call.Common().IsInvoke() && call.Common().Method.Name() == "match" && an.Strip(call.Common().Value) == recv &&
-						len(call.Common().Args) == 1 && an.Strip(call.Common().Args[0]) == ssa.Value(serve.Params[2])
-				})
-				R.Check(okMatch, "C03-order", "(*Mux).serve: handler of the first route whose match(req) is true", c.pos(h), "handler() of the very route element whose match(req) returned true, in registration order", "the in-loop handler call is not guarded by match(req) of the same route")
-				args := h.Common().Args
-				R.Check(len(args) == 2 && an.Strip(args[0]) == ssa.Value(serve.Params[1]) && an.Strip(args[1]) == ssa.Value(serve.Params[2]), "C03-once", "(*Mux).serve: handler receives (w, req)", c.pos(h), "the request and writer given to serve", "handler is not called with serve's own (w, req)")
-				continue
-			}
+		if sel.isFirstMatch(recv, h.Block()) {
+			inLoop = append(inLoop, h)
+			R.OK("C03-order", "(*Mux).serve: handler of the first route whose match(req) is true", c.pos(h), sel.why)
+			args := h.Common().Args
+			R.Check(len(args) == 2 && an.Strip(args[0]) == ssa.Value(serve.Params[1]) && an.Strip(args[1]) == ssa.Value(serve.Params[2]), "C03-once", "(*Mux).serve: handler receives (w, req)", c.pos(h), "the request and writer given to serve", "handler is not called with serve's own (w, req)")
+			continue
+		}
+		if sel.isRouteValue(recv) {
+			inLoop = append(inLoop, h)
+			R.Fail("C03-order", "(*Mux).serve: handler of the first route whose match(req) is true", c.pos(h), "the handler call on a registered route is not guarded by match(req) of the same route being true (first match in registration order)")
+			continue
 		}
 		R.Unknown("C03-order", "(*Mux).serve: handler value", c.pos(h), "handler of an unrecognised route value "+an.Path(recv))
 	}
-	exit := loopIf.Block().Succs[1]
-	for _, h := range deflt {
-		okAfter := exit.Dominates(h.Block())
-		okGuard := hasFact(h.Block(), true, func(v ssa.Value) bool {
-			x, trueMeansNil, ok := an.NilCheck(v)
-			if !ok || trueMeansNil {
-				return false
-			}
-			_, ok = fieldLoad(x, G, "Mux", "defaultRoute")
-			return ok
-		}) || hasFact(h.Block(), false, func(v ssa.Value) bool {
-			x, trueMeansNil, ok := an.NilCheck(v)
-			if !ok || !trueMeansNil {
-				return false
-			}
-			_, ok = fieldLoad(x, G, "Mux", "defaultRoute")
+	defaultRouteNil := func(b *ssa.BasicBlock, isNil bool) bool {
+		return nilFact(b, isNil, func(x ssa.Value) bool {
+			_, ok := fieldLoad(x, G, "Mux", "defaultRoute")
 			return ok
 		})
-		R.Check(okAfter && okGuard, "C03-order", "(*Mux).serve: default route only after all routes were tried", c.pos(h), "dominated by the loop's exit edge and by defaultRoute != nil", "the default route can be consulted before the registered routes (or without being set)")
+	}
+	for _, h := range deflt {
+		okAfter := sel.noMatch(h.Block())
+		okGuard := defaultRouteNil(h.Block(), false)
+		R.Check(okAfter && okGuard, "C03-order", "(*Mux).serve: default route only after all routes were tried", c.pos(h), "reached only when no registered route matched and defaultRoute != nil", "the default route can be consulted before the registered routes (or without being set)")
 		args := h.Common().Args
 		R.Check(len(args) == 2 && an.Strip(args[0]) == ssa.Value(serve.Params[1]) && an.Strip(args[1]) == ssa.Value(serve.Params[2]), "C03-once", "(*Mux).serve: default handler receives (w, req)", c.pos(h), "the request and writer given to serve", "default handler is not called with serve's own (w, req)")
 	}
 	for _, w := range refusal {
-		okAfter := exit.Dominates(w.Block())
-		okGuard := hasFact(w.Block(), false, func(v ssa.Value) bool {
-			x, trueMeansNil, ok := an.NilCheck(v)
-			if !ok || trueMeansNil {
-				return false
-			}
-			_, ok = fieldLoad(x, G, "Mux", "defaultRoute")
-			return ok
-		}) || hasFact(w.Block(), true, func(v ssa.Value) bool {
-			x, trueMeansNil, ok := an.NilCheck(v)
-			if !ok || !trueMeansNil {
-				return false
-			}
-			_, ok = fieldLoad(x, G, "Mux", "defaultRoute")
-			return ok
-		})
-		R.Check(okAfter && okGuard, "C03-order", "(*Mux).serve: built-in refusal only without matching or default route", c.pos(w), "dominated by the loop's exit edge and by defaultRoute == nil", "the built-in refusal can be sent although a route could serve the request")
+		okAfter := sel.noMatch(w.Block())
+		okGuard := defaultRouteNil(w.Block(), true)
+		R.Check(okAfter && okGuard, "C03-order", "(*Mux).serve: built-in refusal only without matching or default route", c.pos(w), "reached only when no registered route matched and defaultRoute == nil", "the built-in refusal can be sent although a route could serve the request")
 	}
 	R.Check(len(inLoop) == 1 && len(deflt) == 1 && len(refusal) == 1, "C03-once", "(*Mux).serve: one first-match site, one default site, one refusal site", c.P.Pos(serve.Pos()),
 		"three mutually exclusive ways a request is answered", sprintf("found %d in-loop handler calls, %d default-route calls, %d refusal writes", len(inLoop), len(deflt), len(refusal)))
@@ -253,6 +217,174 @@ func checkC03(c *Ctx) {
 	c.checkRefusal(serve, refusal)
 	// ------------------------------------------------------------ dispatch
 	c.checkDispatch(m)
+}
+
+// routeSel describes how (*Mux).serve selects the registered route: a forward
+// range loop over m.routes either in serve itself or in a helper it calls.
+type routeSel struct {
+	fn         *ssa.Function   // function holding the loop
+	head       *ssa.BasicBlock // loop header
+	exit       *ssa.BasicBlock // loop exit edge target
+	routesLoad ssa.Value
+	req        ssa.Value // the request as seen by fn
+	call       *ssa.Call // helper call in serve (nil when the loop is in serve)
+	why        string
+}
+
+// nilFact: block b is control-dependent on `x == nil` (isNil) / `x != nil`
+// for an x accepted by match.
+func nilFact(b *ssa.BasicBlock, isNil bool, match func(ssa.Value) bool) bool {
+	for _, pol := range []bool{true, false} {
+		pol := pol
+		if hasFact(b, pol, func(v ssa.Value) bool {
+			x, trueMeansNil, ok := an.NilCheck(v)
+			return ok && (trueMeansNil == pol) == isNil && match(x)
+		}) {
+			return true
+		}
+	}
+	return false
+}
+
+// findRouteLoop finds `for i := range m.routes` in fn, m being parameter mIdx.
+func (c *Ctx) findRouteLoop(fn *ssa.Function, mIdx int) (loopIf *ssa.If, routesLoad ssa.Value) {
+	an.Instrs(fn, func(in ssa.Instruction) {
+		iff, ok := in.(*ssa.If)
+		if !ok || !an.IsRangeHeader(iff) {
+			return
+		}
+		bo, ok := iff.Cond.(*ssa.BinOp)
+		if !ok {
+			return
+		}
+		lc, ok := bo.Y.(*ssa.Call)
+		if !ok {
+			return
+		}
+		if b, ok := lc.Common().Value.(*ssa.Builtin); !ok || b.Name() != "len" {
+			return
+		}
+		base, okRoutes := fieldLoad(lc.Common().Args[0], G, "Mux", "routes")
+		if okRoutes && mIdx < len(fn.Params) && an.Strip(base) == ssa.Value(fn.Params[mIdx]) {
+			loopIf, routesLoad = iff, lc.Common().Args[0]
+		}
+	})
+	return
+}
+
+// isElem: v is the range element routes[i] of the loop.
+func (s *routeSel) isElem(v ssa.Value) bool {
+	ld, ok := an.Strip(v).(*ssa.UnOp)
+	if !ok {
+		return false
+	}
+	ia, ok := ld.X.(*ssa.IndexAddr)
+	return ok && an.IsRangeIdx(ia.Index) && an.Strip(ia.X) == an.Strip(s.routesLoad)
+}
+
+// matched: block b (of s.fn) is control-dependent on elem.match(req) == true
+// for the very element elem.
+func (s *routeSel) matched(b *ssa.BasicBlock, elem ssa.Value) bool {
+	return hasFact(b, true, func(v ssa.Value) bool {
+		call, ok := v.(*ssa.Call)
+		return ok && call.Common().IsInvoke() && call.Common().Method.Name() == "match" && an.Strip(call.Common().Value) == an.Strip(elem) &&
+			len(call.Common().Args) == 1 && an.Strip(call.Common().Args[0]) == s.req
+	})
+}
+
+func (s *routeSel) isRouteValue(recv ssa.Value) bool {
+	if s.call != nil {
+		return an.Strip(recv) == ssa.Value(s.call)
+	}
+	return s.isElem(recv)
+}
+
+// isFirstMatch: recv (in serve, used in block b) is the first route of
+// m.routes whose match(req) is true.
+func (s *routeSel) isFirstMatch(recv ssa.Value, b *ssa.BasicBlock) bool {
+	if s.call != nil {
+		return an.Strip(recv) == ssa.Value(s.call) && nilFact(b, false, func(x ssa.Value) bool { return an.Strip(x) == ssa.Value(s.call) })
+	}
+	return s.isElem(recv) && s.matched(b, recv)
+}
+
+// noMatch: block b of serve is reached only when no registered route matched.
+func (s *routeSel) noMatch(b *ssa.BasicBlock) bool {
+	if s.call != nil {
+		return nilFact(b, true, func(x ssa.Value) bool { return an.Strip(x) == ssa.Value(s.call) })
+	}
+	return s.exit.Dominates(b)
+}
+
+func (c *Ctx) routeSelection(serve *ssa.Function) *routeSel {
+	R := c.R
+	key := "(*Mux).serve: forward range over m.routes"
+	if loopIf, rl := c.findRouteLoop(serve, 0); loopIf != nil {
+		R.OK("C03-order", key, c.pos(loopIf), "for i := 0..len(m.routes)-1 in increasing order (go/ssa range-index induction phi(-1, i+1))")
+		return &routeSel{fn: serve, head: loopIf.Block(), exit: loopIf.Block().Succs[1], routesLoad: rl, req: serve.Params[2],
+			why: "handler() of the very route element whose match(req) returned true, in registration order"}
+	}
+	// a helper: called with serve's m and req, returns routes[i] only under routes[i].match(req), nil only after the loop
+	for _, ci := range an.Calls(serve) {
+		call, ok := ci.(*ssa.Call)
+		if !ok {
+			continue
+		}
+		f := an.StaticCallee(call.Common())
+		if f == nil || !an.InModule(f) || len(f.Blocks) == 0 || len(call.Common().Args) < 2 || an.Strip(call.Common().Args[0]) != ssa.Value(serve.Params[0]) {
+			continue
+		}
+		loopIf, rl := c.findRouteLoop(f, 0)
+		if loopIf == nil {
+			continue
+		}
+		reqIdx := -1
+		for i, a := range call.Common().Args {
+			if an.Strip(a) == ssa.Value(serve.Params[2]) {
+				reqIdx = i
+			}
+		}
+		if reqIdx < 0 || f.Signature.Results().Len() != 1 {
+			continue
+		}
+		s := &routeSel{fn: f, head: loopIf.Block(), exit: loopIf.Block().Succs[1], routesLoad: rl, req: f.Params[reqIdx], call: call}
+		ok = true
+		detail := ""
+		nElem := 0
+		for _, ret := range an.Returns(f) {
+			res := an.ReturnResults(ret)
+			switch {
+			case len(res) == 1 && s.isElem(res[0]):
+				nElem++
+				if !s.matched(ret.Block(), res[0]) {
+					ok, detail = false, "returns a route whose match(req) was not tested true at "+c.pos(ret)
+				}
+			case len(res) == 1 && an.IsNilConst(an.Strip(res[0])):
+				if !s.exit.Dominates(ret.Block()) {
+					ok, detail = false, "returns nil before every route was tried at "+c.pos(ret)
+				}
+			default:
+				ok, detail = false, "returns something else than a route element or nil at "+c.pos(ret)
+			}
+		}
+		// the loop must not skip elements: every back edge / continue comes from a failed match of the current element or ...
+		// (a return inside the loop on match, otherwise next element: any other exit from the loop body is a return)
+		if nElem == 0 {
+			ok, detail = false, "never returns a route element"
+		}
+		for _, b := range f.Blocks {
+			for _, in := range b.Instrs {
+				if st, isStore := in.(*ssa.Store); isStore {
+					ok, detail = false, "helper has a side effect at "+c.pos(st)
+				}
+			}
+		}
+		R.Check(ok, "C03-order", key, c.pos(loopIf), fname(f)+" ranges forward over m.routes and returns the first element whose match(req) is true, nil when none is", fname(f)+" is not a first-match selection: "+detail)
+		s.why = "handler() of the route returned by " + fname(f) + " (first element of m.routes whose match(req) is true), guarded by its being non-nil"
+		return s
+	}
+	R.Fail("C03-order", key, c.P.Pos(serve.Pos()), "no range loop over the routes in serve or in a helper called with serve's (m, req)")
+	return nil
 }
 
 // matchRef is the reference formula of a route kind over semantic atoms.
